@@ -52,12 +52,12 @@ def _cases(tier):
         for op in OPS:
             if op in ("<=", ">=") and sh not in ORDERABLE:
                 continue
-            for n in range(1, _L(tier) + 1):
+            for n in range(1, _L(tier) + (2 if op == "in" else 1)):
                 for seq in itertools.product(alpha, repeat=n):
                     if "C" not in seq:
                         continue
                     for mode in ("create", "fix"):
-                        if mode == "fix" and (tier == "quick" and n == _L(tier)):
+                        if mode == "fix" and (tier == "quick" and n >= _L(tier)):
                             continue
                         cases.append({"sh": sh, "op": op, "seq": list(seq), "mode": mode})
     for op in OPS:
